@@ -444,6 +444,7 @@ void FdSim::reset_run()
 	script_pos = 0;
 	open_errno = 0;
 	as_fifo = false;
+	lowest_free_is_zero = zero_is_sim = false;
 	fstats = lseeks = 0;
 	reads = writes = opens = closes = injected = bad_close = eof_reads = short_xfers = full_buffer_reads = 0;
 	events.clear();
@@ -463,6 +464,12 @@ int FdSim::open_sim(const std::string &path, bool rd, bool wr, bool trunc, bool 
 	else if (trunc)
 		it->second.clear();
 	int fd = next_fd++;
+	if (lowest_free_is_zero && !fds.count(0))
+	{
+		fd = 0;
+		next_fd--;
+		zero_is_sim = true;
+	}
 	SimFd f;
 	f.open = true;
 	f.rd = rd;
@@ -478,7 +485,7 @@ int FdSim::open_count() const
 		n += kv.second.open;
 	return n;
 }
-bool is_sim_fd(int fd) { return fd >= 1000 && g_fd.fds.count(fd); }
+bool is_sim_fd(int fd) { return (fd >= 1000 || (fd == 0 && g_fd.zero_is_sim)) && g_fd.fds.count(fd); }
 
 static int64_t next_script(bool *have)
 {
@@ -494,7 +501,7 @@ static int64_t next_script(bool *have)
 extern "C" {
 ssize_t __wrap_read(int fd, void *buf, size_t count)
 {
-	if (fd < 1000)
+	if (fd < 1000 && !(fd == 0 && g_fd.zero_is_sim))
 		return __real_read(fd, buf, count);
 	auto it = g_fd.fds.find(fd);
 	g_fd.reads++;
@@ -534,7 +541,7 @@ ssize_t __wrap_read(int fd, void *buf, size_t count)
 }
 ssize_t __wrap_write(int fd, const void *buf, size_t count)
 {
-	if (fd < 1000)
+	if (fd < 1000 && !(fd == 0 && g_fd.zero_is_sim))
 		return __real_write(fd, buf, count);
 	auto it = g_fd.fds.find(fd);
 	g_fd.writes++;
@@ -606,7 +613,7 @@ static int sim_fstat_common(int fd, mode_t *mode, off_t *size)
 }
 int __wrap_fstat(int fd, struct stat *st)
 {
-	if (fd < 1000)
+	if (fd < 1000 && !(fd == 0 && g_fd.zero_is_sim))
 		return __real_fstat(fd, st);
 	mode_t m;
 	off_t sz;
@@ -622,7 +629,7 @@ int __wrap_fstat(int fd, struct stat *st)
 }
 int __wrap_fstat64(int fd, struct stat64 *st)
 {
-	if (fd < 1000)
+	if (fd < 1000 && !(fd == 0 && g_fd.zero_is_sim))
 		return __real_fstat64(fd, st);
 	mode_t m;
 	off_t sz;
@@ -662,19 +669,19 @@ static off_t sim_lseek(int fd, off_t off, int whence)
 }
 off_t __wrap_lseek(int fd, off_t off, int whence)
 {
-	if (fd < 1000)
+	if (fd < 1000 && !(fd == 0 && g_fd.zero_is_sim))
 		return __real_lseek(fd, off, whence);
 	return sim_lseek(fd, off, whence);
 }
 off64_t __wrap_lseek64(int fd, off64_t off, int whence)
 {
-	if (fd < 1000)
+	if (fd < 1000 && !(fd == 0 && g_fd.zero_is_sim))
 		return __real_lseek64(fd, off, whence);
 	return (off64_t)sim_lseek(fd, (off_t)off, whence);
 }
 int __wrap_close(int fd)
 {
-	if (fd < 1000)
+	if (fd < 1000 && !(fd == 0 && g_fd.zero_is_sim))
 		return __real_close(fd);
 	auto it = g_fd.fds.find(fd);
 	g_fd.closes++;
